@@ -69,8 +69,14 @@ func CheckReplies(c *Ctx, clients []*TClient) map[*TClient]map[wamp.ID]*replySta
 			// request id that the caller handed over before it could have seen
 			// the final reply to the earlier chunks is, for the router, a call
 			// of its own once the first one has ended, and is answered as such.
+			// (the step at which the client decided to send the chunk - the hand-over itself may
+			// complete only after the final reply has arrived meanwhile)
+			decided := chunkSeq[req]
+			if d := cl.ChunkAt[req]; len(d) > 0 {
+				decided = d
+			}
 			allowed := 0
-			for _, q := range chunkSeq[req] {
+			for _, q := range decided {
 				if s.finals == 0 || q < s.firstSeq {
 					allowed++
 				}
